@@ -1,6 +1,6 @@
 (* Properties_C14.v — C14: the device copier delivers exactly the requested bytes and signals completion once. *)
-From Coq Require Import String List Ascii ZArith.
-From QH Require Import Bytes Value Copier Spec_C14 CopierProofs.
+From Coq Require Import String List Ascii ZArith Lia.
+From QH Require Import Bytes Value Copier Spec_C14 CopierProofs CopierBsProofs.
 Import ListNotations.
 Local Open Scope Z_scope.
 
@@ -69,3 +69,20 @@ Example C14_nonvacuous :
   cwritten (snd (c_run 0 c (CStart :: turns 11))) = B "234567" /\
   seq_ready (fst (c_step (mk_cop [] true 5 0 (-1) false false false false false) CStart)).
 Proof. split; [vm_compute; reflexivity|apply start_seq_ready]. Qed.
+
+(* the block size changed while the copy runs: for EVERY schedule of event-loop turns and setBufferSize calls (each size at
+   least one byte, at least as many turns as bytes), exactly the requested bytes, completion once, no error *)
+Theorem C14_copies_slice_any_block_sizes : forall content bs from to ops,
+  1 <= bs -> 0 <= from < Z.of_nat (length content) -> (to = -1 \/ from <= to) ->
+  Forall bs_op ops -> (length content <= nturns ops)%nat ->
+  let c := mk_cop content false bs from to false false false false false in
+  let l := snd (c_run 0 c (CStart :: ops)) in
+  cwritten l = wanted content from to /\ cfinished l = 1%nat /\ cerrors l = 0%nat.
+Proof. exact copies_slice_any_block_sizes. Qed.
+Print Assumptions C14_copies_slice_any_block_sizes.
+
+Example C14_block_sizes_nonvacuous :
+  let ops := [CTurn; CSetBs 4; CTurn; CSetBs 1; CTurn; CTurn; CTurn; CTurn; CTurn] in
+  Forall bs_op ops /\ (length (B "abcdefg") <= nturns ops)%nat /\
+  cwritten (snd (c_run 0 (mk_cop (B "abcdefg") false 2 1 (-1) false false false false false) (CStart :: ops))) = B "bcdefg".
+Proof. cbn zeta. split; [repeat constructor; lia|]. split; [vm_compute; lia|vm_compute; reflexivity]. Qed.
